@@ -1,14 +1,270 @@
 import Driver.Proto
-/-! Driver sub-command `grammar` (stub – filled in by its cluster). -/
+import PtVerif.Model.Print
+import PtVerif.Model.GrammarTable
+import PtVerif.Model.GrammarSpec
+import PtVerif.Model.GrammarMix
+/-! Driver sub-command `grammar`: the formula grammar (C01) and the printer (C13).
+
+Texts cross the protocol as comma-separated code points (`-` = empty text).
+Requests:
+* `tblgen` / `tblnew` / `ent c1,c2 z alias isos ions` – select the generated table, or define one
+* `tbldump` – the current table
+* `parse <text>` → `OK <items> <dens>` | `FAIL` | `ABORT`
+* `parsemix <text>` → `OK <mixture term>` | `FAIL` | `ABORT`: the whole top-level grammar (Model/GrammarMix.lean);
+  term := ( C items dens ) | ( G term dens ) | ( W (p num dec term)* term ) | ( V … ) |
+  ( L (q num dec unit term | r num dec term)* ) | ( M … )
+* `print <qitems>` / `str <name> <qitems>` / `repr <name> <qitems>` → `S <text>`
+* `fmtg n d` / `strcount n d` → `S <text>`;  `round6 n d` → `C num dec`
+* `deriv <derivation>` → `D <canon 0|1> <text> (OK <items> <dens> | NONE)`: the yield of a derivation of
+  Model/GrammarSpec.lean, whether it is canonical, and what it denotes in the current table
+* `roundtrip <qitems>` → `OK <items> <dens>` of parsing the printed text, and `EXP <items>` =
+  `norm (roundItems …)` on a second token group
+-/
 namespace Driver.GrammarCmd
-open Driver
+open Driver PtModel PtModel.Grammar PtModel.Print
 
 structure St where
-  dummy : Unit := ()
+  table : Table := genTable
 
 def init : St := {}
 
+def encText (cs : List Char) : String :=
+  if cs.isEmpty then "-" else ",".intercalate (cs.map fun c => toString c.toNat)
+
+def decText (s : String) : Option (List Char) :=
+  if s = "-" then some [] else
+  (s.splitOn ",").foldr (fun t acc => do
+    let r ← acc
+    let n ← t.toNat?
+    pure (Char.ofNat n :: r)) (some [])
+
+def natList (s : String) : Option (List Nat) :=
+  if s = "-" then some [] else (s.splitOn ",").mapM String.toNat?
+def intList (s : String) : Option (List Int) :=
+  if s = "-" then some [] else (s.splitOn ",").mapM String.toInt?
+
+mutual
+partial def showFragC : Frag Cnt → String
+  | .atom x => s!"a {x.z} {x.a} {x.q}"
+  | .group is => "g " ++ showItemsC is
+partial def showItemsC (is : Items Cnt) : String :=
+  "[ " ++ String.join (is.toList.map fun (c, f) => s!"{c.num} {c.dec} " ++ showFragC f ++ " ") ++ "]"
+end
+
+def showDens : Option Dens → String
+  | none => "-"
+  | some (.iso c) => s!"i {c.num} {c.dec}"
+  | some (.nat c) => s!"n {c.num} {c.dec}"
+
+def readQ (s : String) : Option Q :=
+  match s.splitOn "/" with
+  | [n, d] => do let n ← n.toNat?; let d ← d.toNat?; some ⟨n, d⟩
+  | _ => none
+
+/-- qitems := "[" (n/d "a" z A q | n/d "g" qitems)* "]" -/
+partial def readQItems : Toks → Option (Items Q × Toks)
+  | "[" :: r => go r
+  | _ => none
+where
+  go : Toks → Option (Items Q × Toks)
+    | "]" :: r => some (.nil, r)
+    | c :: "a" :: z :: a :: q :: r => do
+        let c ← readQ c; let z ← natTok z; let a ← natTok a; let q ← intTok q
+        let (rest, r') ← go r
+        some (.cons c (.atom ⟨z, a, q⟩) rest, r')
+    | c :: "g" :: r => do
+        let c ← readQ c
+        let (inner, r1) ← readQItems r
+        let (rest, r2) ← go r1
+        some (.cons c (.group inner) rest, r2)
+    | _ => none
+
+mutual
+partial def showMix : Mix → String
+  | .compound fs d => "( C " ++ showItemsC fs ++ " " ++ showDens d ++ " )"
+  | .grouped m d => "( G " ++ showMix m ++ " " ++ showDens d ++ " )"
+  | .byWeight ps b => "( W " ++ showPct ps ++ showMix b ++ " )"
+  | .byVolume ps b => "( V " ++ showPct ps ++ showMix b ++ " )"
+  | .byLayer ps => "( L " ++ showQty ps ++ ")"
+  | .byMass ps => "( M " ++ showQty ps ++ ")"
+partial def showPct : PctParts → String
+  | .nil => ""
+  | .cons c m r => s!"p {c.num} {c.dec} " ++ showMix m ++ " " ++ showPct r
+partial def showQty : QtyParts → String
+  | .nil => ""
+  | .qty c u m r => s!"q {c.num} {c.dec} {u} " ++ showMix m ++ " " ++ showQty r
+  | .rep i c r => s!"r {c.num} {c.dec} " ++ showMix i ++ " " ++ showQty r
+end
+
+def showParse : Except Err (Items Cnt × Option Dens) → String
+  | .ok (fs, d) => "OK " ++ showItemsC fs ++ " " ++ showDens d
+  | .error .fail => "FAIL"
+  | .error .abort => "ABORT"
+
+def bad (st : St) : IO St := do reply "ERR bad-op"; pure st
+
+/-! reading a derivation (Model/GrammarSpec.lean) from tokens:
+  cnt   := c0 | cw <ds> | cf <i> <f>
+  elem  := e <pre> <sym> (i0 | i1 <b1> <ds> <b2>) (q0 | q1 <b1> <mag> <0|1 neg> <b2>) cnt
+  group := I cnt <k> elem*k | X <b0> <b1> comp <b2> <b3> cnt
+  comp  := [ group (s <b1> <0|1 plus> <b2> group)* ]
+  whole := E <b> | F <lead> comp (d0 | d1 <b0> cnt <b1> <n|i|->) <trail> -/
+def rdCnt : Toks → Option (CntTok × Toks)
+  | "c0" :: r => some (.none, r)
+  | "cw" :: ds :: r => do let ds ← decText ds; some (.whole ds, r)
+  | "cf" :: i :: f :: r => do let i ← decText i; let f ← decText f; some (.fract i f, r)
+  | _ => none
+
+def rdElem : Toks → Option (Elem × Toks)
+  | "e" :: pre :: sym :: r => do
+    let pre ← decText pre
+    let sym ← decText sym
+    let (iso, r) ← (match r with
+      | "i0" :: r => some (none, r)
+      | "i1" :: b1 :: ds :: b2 :: r => do
+        let b1 ← decText b1; let ds ← decText ds; let b2 ← decText b2
+        some (some (⟨b1, ds, b2⟩ : IsoTok), r)
+      | _ => none)
+    let (ion, r) ← (match r with
+      | "q0" :: r => some (none, r)
+      | "q1" :: b1 :: mag :: neg :: b2 :: r => do
+        let b1 ← decText b1; let mag ← decText mag; let b2 ← decText b2
+        some (some (⟨b1, mag, neg == "1", b2⟩ : IonTok), r)
+      | _ => none)
+    let (cnt, r) ← rdCnt r
+    some (⟨pre, sym, iso, ion, cnt⟩, r)
+  | _ => none
+
+def rdElems : Nat → Toks → Option (List Elem × Toks)
+  | 0, r => some ([], r)
+  | k + 1, r => do
+    let (e, r) ← rdElem r
+    let (es, r) ← rdElems k r
+    some (e :: es, r)
+
+mutual
+partial def rdGroup : Toks → Option (Group × Toks)
+  | "I" :: r => do
+    let (lead, r) ← rdCnt r
+    match r with
+    | k :: r => do
+      let k ← k.toNat?
+      let (es, r) ← rdElems k r
+      some (.implicit lead es, r)
+    | _ => none
+  | "X" :: b0 :: b1 :: r => do
+    let b0 ← decText b0; let b1 ← decText b1
+    let (inner, r) ← rdComp r
+    match r with
+    | b2 :: b3 :: r => do
+      let b2 ← decText b2; let b3 ← decText b3
+      let (cnt, r) ← rdCnt r
+      some (.explicit b0 b1 inner b2 b3 cnt, r)
+    | _ => none
+  | _ => none
+partial def rdComp : Toks → Option (Comp × Toks)
+  | "[" :: r => do
+    let (g, r) ← rdGroup r
+    rdMore g r
+  | _ => none
+partial def rdMore (g : Group) : Toks → Option (Comp × Toks)
+  | "]" :: r => some (.one g, r)
+  | "s" :: b1 :: plus :: b2 :: r => do
+    let b1 ← decText b1; let b2 ← decText b2
+    let (g2, r) ← rdGroup r
+    let (rest, r) ← rdMore g2 r
+    some (.more g ⟨b1, plus == "1", b2⟩ rest, r)
+  | _ => none
+end
+
+def rdCompound : Toks → Option Compound
+  | ["E", b] => do let b ← decText b; some (.empty b)
+  | "F" :: lead :: r => do
+    let lead ← decText lead
+    let (comp, r) ← rdComp r
+    let (dens, r) ← (match r with
+      | "d0" :: r => some (none, r)
+      | "d1" :: b0 :: r => do
+        let b0 ← decText b0
+        let (cnt, r) ← rdCnt r
+        match r with
+        | b1 :: tag :: r => do
+          let b1 ← decText b1
+          some (some (⟨b0, cnt, b1, if tag == "n" then some true else if tag == "i" then some false else none⟩ : DensTok), r)
+        | _ => none
+      | _ => none)
+    match r with
+    | [trail] => do let trail ← decText trail; some (.full lead comp dens trail)
+    | _ => none
+  | _ => none
+
 def handle (st : St) : Toks → IO St
-  | _ => do reply "ERR bad-op"; pure st
+  | ["tblgen"] => do reply "ok"; pure { st with table := genTable }
+  | ["tblnew"] => do reply "ok"; pure { st with table := [] }
+  | ["ent", sym, z, al, isos, ions] =>
+    match decText sym, natTok z, natTok al, natList isos, intList ions with
+    | some sym, some z, some al, some isos, some ions => do
+      reply "ok"
+      pure { st with table := st.table ++ [{ sym := sym, z := z, alias := al, isos := isos, ions := ions }] }
+    | _, _, _, _, _ => bad st
+  | ["tbldump"] => do
+    reply (" ".intercalate (st.table.map fun e =>
+      s!"{encText e.sym}|{e.z}|{e.alias}|{",".intercalate (e.isos.map toString)}|{",".intercalate (e.ions.map toString)}"))
+    pure st
+  | ["parse", t] =>
+    match decText t with
+    | some cs => do reply (showParse (parse st.table cs)); pure st
+    | none => bad st
+  | ["parsemix", t] =>
+    match decText t with
+    | some cs => do
+      reply (match parseTop st.table cs with
+        | .ok m => "OK " ++ showMix m
+        | .error .fail => "FAIL"
+        | .error .abort => "ABORT")
+      pure st
+    | none => bad st
+  | "print" :: rest =>
+    match readQItems rest with
+    | some (s, []) => do reply ("S " ++ encText (strItems st.table s)); pure st
+    | _ => bad st
+  | "str" :: name :: rest =>
+    match decText name, readQItems rest with
+    | some nm, some (s, []) => do
+      reply ("S " ++ encText (strFormula st.table (if nm.isEmpty then none else some nm) s)); pure st
+    | _, _ => bad st
+  | "repr" :: name :: rest =>
+    match decText name, readQItems rest with
+    | some nm, some (s, []) => do
+      reply ("S " ++ encText (reprFormula st.table (if nm.isEmpty then none else some nm) s)); pure st
+    | _, _ => bad st
+  | ["fmtg", n, d] =>
+    match natTok n, natTok d with
+    | some n, some d => do reply ("S " ++ encText (fmtG6 ⟨n, d⟩)); pure st
+    | _, _ => bad st
+  | ["strcount", n, d] =>
+    match natTok n, natTok d with
+    | some n, some d => do reply ("S " ++ encText (strCount ⟨n, d⟩)); pure st
+    | _, _ => bad st
+  | ["round6", n, d] =>
+    match natTok n, natTok d with
+    | some n, some d => do let c := round6 ⟨n, d⟩; reply s!"C {c.num} {c.dec}"; pure st
+    | _, _ => bad st
+  | "deriv" :: rest =>
+    match rdCompound rest with
+    | some D => do
+      let res := match D.result st.table with
+        | some (fs, d) => "OK " ++ showItemsC fs ++ " " ++ showDens d
+        | none => "NONE"
+      reply s!"D {if D.canon then 1 else 0} {encText D.text} {res}"
+      pure st
+    | none => bad st
+  | "roundtrip" :: rest =>
+    match readQItems rest with
+    | some (s, []) => do
+      reply (showParse (parse st.table (strItems st.table s)) ++ " EXP " ++ showItemsC (norm (roundItems s)))
+      pure st
+    | _ => bad st
+  | _ => bad st
 
 end Driver.GrammarCmd
